@@ -142,3 +142,61 @@ Qed.
 Lemma cap_row_shape (vr : srow) (onp : nat) (cap : Q) (terms : srow) x :
   sdot (vr ++ [(onp, - cap)] ++ terms) x == sdot vr x - cap * nth onp x 0 + sdot terms x.
 Proof. rewrite !sdot_app, sdot_cons, sdot_nil. ring. Qed.
+
+(* ---------- ramp rows and their release during profiles (assets.py:1797-1827) ---------- *)
+(* lower row of step t:   v_t - v_{t-1} + ramp*on_{t-1} + sum_{i < Dn, t+i < T} (maxc_{t-1} - ramp) * shut_{t+i}  >=  0
+   upper row of step t:   v_t - v_{t-1} - ramp*on_t     + sum_{i < S,  i <= t}   (ramp - maxc_t)     * start_{t-i} <=  0 *)
+Lemma ramp_shut_sdot shut_idx T t Dn coef x :
+  sdot (ramp_shut_terms shut_idx T t Dn coef) x ==
+  qsum (map (fun i => if Nat.ltb (t + i) T then coef * nth (shut_idx + t + i) x 0 else 0) (seq 0 Dn)).
+Proof. unfold ramp_shut_terms. apply (sdot_flat_map_if (fun i => Nat.ltb (t + i) T) (fun i => (shut_idx + t + i)%nat) (fun _ => coef)). Qed.
+Lemma ramp_start_sdot start_idx t S coef x :
+  sdot (ramp_start_terms start_idx t S coef) x ==
+  qsum (map (fun i => if Nat.leb i t then coef * nth (start_idx + t - i) x 0 else 0) (seq 0 S)).
+Proof. unfold ramp_start_terms. apply (sdot_flat_map_if (fun i => Nat.leb i t) (fun i => (start_idx + t - i)%nat) (fun _ => coef)). Qed.
+
+(* no shutdown flag within reach: the output falls by at most the ramp (and not at all below a unit that was off) *)
+Theorem ramp_down_applies shut_idx T t Dn rmp maxc_prev x v_t v_prev on_prev :
+  0 <= v_t - v_prev + rmp * on_prev + sdot (ramp_shut_terms shut_idx T t Dn (maxc_prev - rmp)) x ->
+  (forall i, (i < Dn)%nat -> (t + i < T)%nat -> nth (shut_idx + t + i) x 0 == 0) ->
+  v_prev - v_t <= rmp * on_prev.
+Proof.
+  intros H Hz. rewrite ramp_shut_sdot in H.
+  assert (Z : qsum (map (fun i => if Nat.ltb (t + i) T then (maxc_prev - rmp) * nth (shut_idx + t + i) x 0 else 0) (seq 0 Dn)) == 0).
+  { apply qsum_zero. intros i Hi. apply in_seq in Hi. destruct (Nat.ltb_spec (t + i) T); [rewrite Hz by lia; ring|reflexivity]. }
+  rewrite Z in H. lra.
+Qed.
+(* a shutdown flag within reach (the unit is on its shutdown profile, or turns off in this step): the row only says that the output does not
+   fall by more than the previous maximum capacity -- no restriction for outputs within [0, max capacity]: the profile takes precedence *)
+Theorem ramp_down_released shut_idx T t Dn rmp maxc_prev x v_t v_prev on_prev i0 :
+  (i0 < Dn)%nat -> (t + i0 < T)%nat -> nth (shut_idx + t + i0) x 0 == 1 ->
+  (forall i, (i < Dn)%nat -> (t + i < T)%nat -> i <> i0 -> nth (shut_idx + t + i) x 0 == 0) ->
+  on_prev == 1 -> 0 <= v_t -> v_prev <= maxc_prev ->
+  0 <= v_t - v_prev + rmp * on_prev + sdot (ramp_shut_terms shut_idx T t Dn (maxc_prev - rmp)) x.
+Proof.
+  intros H1 H2 H3 H4 Hon Hv Hp. rewrite ramp_shut_sdot. rewrite (qsum_single _ _ i0 H1).
+  - destruct (Nat.ltb_spec (t + i0) T); [|lia]. rewrite H3, Hon. lra.
+  - intros i Hi Hn. destruct (Nat.ltb_spec (t + i) T); [rewrite H4 by lia; ring|reflexivity].
+Qed.
+(* no start flag within reach: the output rises by at most the ramp while on *)
+Theorem ramp_up_applies start_idx t S rmp maxc_t x v_t v_prev on_t :
+  v_t - v_prev - rmp * on_t + sdot (ramp_start_terms start_idx t S (rmp - maxc_t)) x <= 0 ->
+  (forall i, (i < S)%nat -> (i <= t)%nat -> nth (start_idx + t - i) x 0 == 0) ->
+  v_t - v_prev <= rmp * on_t.
+Proof.
+  intros H Hz. rewrite ramp_start_sdot in H.
+  assert (Z : qsum (map (fun i => if Nat.leb i t then (rmp - maxc_t) * nth (start_idx + t - i) x 0 else 0) (seq 0 S)) == 0).
+  { apply qsum_zero. intros i Hi. apply in_seq in Hi. destruct (Nat.leb_spec i t); [rewrite Hz by lia; ring|reflexivity]. }
+  rewrite Z in H. lra.
+Qed.
+(* within a start profile the row is implied by 0 <= v_{t-1} and v_t <= max capacity *)
+Theorem ramp_up_released start_idx t S rmp maxc_t x v_t v_prev on_t i0 :
+  (i0 < S)%nat -> (i0 <= t)%nat -> nth (start_idx + t - i0) x 0 == 1 ->
+  (forall i, (i < S)%nat -> (i <= t)%nat -> i <> i0 -> nth (start_idx + t - i) x 0 == 0) ->
+  on_t == 1 -> 0 <= v_prev -> v_t <= maxc_t ->
+  v_t - v_prev - rmp * on_t + sdot (ramp_start_terms start_idx t S (rmp - maxc_t)) x <= 0.
+Proof.
+  intros H1 H2 H3 H4 Hon Hp Hv. rewrite ramp_start_sdot. rewrite (qsum_single _ _ i0 H1).
+  - destruct (Nat.leb_spec i0 t); [|lia]. rewrite H3, Hon. lra.
+  - intros i Hi Hn. destruct (Nat.leb_spec i t); [rewrite H4 by lia; ring|reflexivity].
+Qed.
